@@ -453,16 +453,46 @@ def downsample(repo, chk):
                 ok_f = True
                 st = par.get(lc)
                 cand_name = st.targets[0].id if isinstance(st, ast.Assign) and isinstance(st.targets[0], ast.Name) else None
-    chk.expect(ok_f, 'C20.6a', 'R15', fn.site(lcs[0]) if lcs else fn.site(cls_loop), ast.unparse(lcs[0]) if lcs else '', 'candidates of a class are exactly the rows with that label', f'per class, candidates must be [X[i] for i in range(len(y)) if y[i] == {label}]')
+    mask_wrong = None
+    if not ok_f:
+        # the same selection written as a boolean mask / index array:  X[y == label], X[np.where(y == label)], X[np.flatnonzero(y == label)]
+        for n_ in ast.walk(cls_loop):
+            if isinstance(n_, ast.Assign) and len(n_.targets) == 1 and isinstance(n_.targets[0], ast.Name) and isinstance(n_.value, ast.Subscript) and isinstance(n_.value.value, ast.Name) and n_.value.value.id == Xp:
+                sl = n_.value.slice
+                if isinstance(sl, ast.Call) and (m.dotted(sl.func) or '') in ('numpy.where', 'numpy.flatnonzero', 'numpy.nonzero') and len(sl.args) == 1:
+                    sl = sl.args[0]
+                elif isinstance(sl, ast.Subscript) and isinstance(sl.value, ast.Call) and (m.dotted(sl.value.func) or '') in ('numpy.where', 'numpy.nonzero') and len(sl.value.args) == 1:
+                    sl = sl.value.args[0]
+                t_ = term_of(fn, sl, inline=False)
+                if t_ in (E(f'{yp} == {label}'), E(f'{label} == {yp}'), E(f'numpy.equal({yp}, {label})')):
+                    ok_f = True
+                    cand_name = n_.targets[0].id
+                elif isinstance(t_, tuple) and t_[0] == 'cmp' and t_[1] != '==' and {t_[2], t_[3]} == {('name', yp), ('name', label)}:
+                    mask_wrong = (n_, t_[1])
+    if mask_wrong is not None:
+        chk.bad('C20.6a', 'R15', fn.site(mask_wrong[0]), ast.unparse(mask_wrong[0])[:100], f'the candidates of a class are selected with `{mask_wrong[1]}` instead of `==`: rows of other classes are drawn for the class')
+    else:
+      chk.expect(ok_f, 'C20.6a', 'R15', fn.site(lcs[0]) if lcs else fn.site(cls_loop), ast.unparse(lcs[0]) if lcs else '', 'candidates of a class are exactly the rows with that label', f'per class, candidates must be [X[i] for i in range(len(y)) if y[i] == {label}]', soft=True)
     rs = [c for c in ast.walk(cls_loop) if isinstance(c, ast.Call) and m.dotted(c.func) == 'sklearn.utils.resample']
     kw = {k.arg: ast.unparse(k.value) for k in rs[0].keywords} if rs else {}
     ok_r = len(rs) == 1 and rs[0].args and ast.unparse(rs[0].args[0]) == cand_name and kw.get('n_samples') == np_ and kw.get('random_state') == seedp
-    chk.expect(ok_r, 'C20.6b', 'R15', fn.site(rs[0]) if rs else fn.site(), ast.unparse(rs[0]).replace('\n', ' ')[:120] if rs else '', 'n rows are drawn from the class, reproducibly', 'resample must draw n_samples=n rows from the class candidates with random_state=seed')
+    chk.expect(ok_r, 'C20.6b', 'R15', fn.site(rs[0]) if rs else fn.site(), ast.unparse(rs[0]).replace('\n', ' ')[:120] if rs else '', 'n rows are drawn from the class, reproducibly', 'resample must draw n_samples=n rows from the class candidates with random_state=seed', soft=True)
     rep_forms = (E(f'[{label}] * {np_}'), E(f'{np_} * [{label}]'), E(f'numpy.full({np_}, {label})'), E(f'numpy.repeat({label}, {np_})'))
     ys = [n for n in ast.walk(cls_loop) if isinstance(n, ast.Assign) and term_of(fn, n.value, inline=False) in rep_forms]
     # the n labels may also be written where they are appended (np.concatenate((acc, [label] * n)))
     ys_inline = [x for x in ast.walk(cls_loop) if isinstance(x, (ast.BinOp, ast.Call)) and term_of(fn, x, inline=False) in rep_forms] if not ys else []
-    chk.expect(len(ys) == 1 or (not ys and len(ys_inline) == 1), 'C20.6c', 'R15', fn.site(ys[0]) if ys else fn.site(cls_loop), f'[{label}] * {np_}', 'n labels of that class', f'labels of the down-sampled rows must be [{label}] * {np_} for every class')
+    # all classes at once, outside the loop: np.repeat(<the class values>, n) - every value n times, in the order of the values
+    vals_name = cls_loop.iter.id
+    ys_all = [x for x in own_nodes(fn.node) if isinstance(x, ast.Call) and term_of(fn, x, inline=False) in (E(f'numpy.repeat({vals_name}, {np_})'),) and not any(x is y_ for y_ in ast.walk(cls_loop))]
+    rep_other = [x for x in own_nodes(fn.node) if isinstance(x, ast.Call) and (m.dotted(x.func) or '') in ('numpy.repeat', 'numpy.tile') and x not in ys_all and not any(x is y_ for y_ in ast.walk(cls_loop))
+                 and any(isinstance(z, ast.Call) and (m.dotted(z.func) or ast.unparse(z.func)) in ('numpy.arange', 'range', 'len') for z in ast.walk(x))]
+    if not ys and not ys_inline and not ys_all and rep_other:
+        chk.bad('C20.6c', 'R15', fn.site(rep_other[0]), ast.unparse(rep_other[0])[:100], f'the labels of the down-sampled rows are built from class POSITIONS / counts, not from the class values `{vals_name}` found in y: '
+                'whenever the labels are not exactly 0..k-1 the returned labels are not those of the rows')
+    elif not ys and not ys_inline and len(ys_all) == 1:
+        chk.ok('C20.6c', 'R15', fn.site(ys_all[0]), ast.unparse(ys_all[0])[:80], 'n labels of every class, in the order of the classes')
+    else:
+      chk.expect(len(ys) == 1 or (not ys and len(ys_inline) == 1), 'C20.6c', 'R15', fn.site(ys[0]) if ys else fn.site(cls_loop), f'[{label}] * {np_}', 'n labels of that class', f'labels of the down-sampled rows must be [{label}] * {np_} for every class', soft=True)
     # accumulation and result
     r = returns(fn)
     ok_ret = False
@@ -477,8 +507,10 @@ def downsample(repo, chk):
         xdefs = [n for n in own_nodes(fn.node) if isinstance(n, ast.Assign) and isinstance(n.targets[0], ast.Name) and n.targets[0].id == xa and lst and f'({lst}' in ast.unparse(n.value) and ('concatenate' in ast.unparse(n.value) or 'vstack' in ast.unparse(n.value))]
         yacc = [n for n in ast.walk(cls_loop) if isinstance(n, ast.Assign) and isinstance(n.targets[0], ast.Name) and n.targets[0].id == ya and ya in ast.unparse(n.value) and 'concatenate' in ast.unparse(n.value)
                 and ((ys and ys[0].targets[0].id in ast.unparse(n.value)) or (ys_inline and any(x is ys_inline[0] for x in ast.walk(n.value))))]
-        ok_ret = bool(coll) and bool(xdefs) and bool(yacc)
-    chk.expect(ok_ret, 'C20.6f', 'R6', fn.site(r[0]) if r else fn.site(), ast.unparse(r[0]) if r else '', 'returns (concatenated per-class rows, concatenated per-class labels)', 'downsample_dataset must return (rows of all classes concatenated, labels of all classes concatenated) in this order')
+        y_all = [n for n in own_nodes(fn.node) if isinstance(n, ast.Assign) and isinstance(n.targets[0], ast.Name) and n.targets[0].id == ya and ys_all and any(x is ys_all[0] for x in ast.walk(n.value))
+                 and not any(n is y_ for y_ in ast.walk(cls_loop))] if not yacc else []
+        ok_ret = bool(coll) and bool(xdefs) and (bool(yacc) or bool(y_all))
+    chk.expect(ok_ret, 'C20.6f', 'R6', fn.site(r[0]) if r else fn.site(), ast.unparse(r[0]) if r else '', 'returns (concatenated per-class rows, concatenated per-class labels)', 'downsample_dataset must return (rows of all classes concatenated, labels of all classes concatenated) in this order', soft=True)
     g = [n for n in own_nodes(fn.node) if isinstance(n, ast.If) and any(isinstance(x, ast.Raise) for x in n.body) and np_ in ast.unparse(n.test) and
          any(isinstance(x, tuple) and x[:2] in (('call', ('name', 'min')), ('call', ('lib', 'numpy.min'))) for x in walk_term(term_of(fn, n.test, {np_: ('role', 'n')}, inline=True)))]
     cname = None
